@@ -400,11 +400,13 @@ Definition m_parent := parent_gen parent_keeps_compressed_flag.
    compared here) *)
 Definition m_split_first_rest := parent_gen split_first_keeps_compressed_flag.
 
-Fixpoint parent_n (k : nat) (m : bytes) (p : pname) : outcome pname :=
+Fixpoint step_n (step : bytes -> pname -> outcome (option pname)) (k : nat) (m : bytes) (p : pname) : outcome pname :=
   match k with
   | O => Ok p
-  | S k' => do r <- m_parent m p; match r with Some p' => parent_n k' m p' | None => Ok p end
+  | S k' => do r <- step m p; match r with Some p' => step_n step k' m p' | None => Ok p end
   end.
+Definition parent_n := step_n m_parent.
+Definition split_first_n := step_n m_split_first_rest.
 
 (* ------------------------------------------------------------------ CharStr *)
 
@@ -691,12 +693,19 @@ Inductive tok := TB (v : N) | TW (v : N) | TD (v : N) | TQ (v : N) | TN (v : N) 
 
 (* exactly n octets (addresses) *)
 Definition pad (n : nat) (w : bytes) : bytes := firstn n (w ++ repeat 0 n).
-(* u32::from_ne_bytes on a little-endian host (Ipv4Addr's Hash) *)
+(* u32::from_ne_bytes (Ipv4Addr's Hash in std); the host byte order is read
+   from `rustc --print cfg` by T1 (host_little_endian) *)
 Definition le32 (w : bytes) : N :=
   match w with
-  | [a; b; c; d] => a + 256 * (b + 256 * (c + 256 * d))
+  | [a; b; c; d] => if host_little_endian then a + 256 * (b + 256 * (c + 256 * d))
+                    else d + 256 * (c + 256 * (b + 256 * a))
   | _ => 0
   end.
+
+(* std: u8::to_ascii_lowercase is `self | (is_ascii_uppercase as u8) x ASCII_CASE_MASK`
+   with ASCII_CASE_MASK = 0b0010_0000 and is_ascii_uppercase = 'A' ..= 'Z' *)
+Definition std_to_ascii_lowercase (b : N) : N :=
+  N.lor b ((if (65 <=? b) && (b <=? 90) then 1 else 0) * 32).
 Definition be48 (n : N) : bytes := be16 (n / 4294967296) ++ be32 (n mod 4294967296).
 
 Inductive fval :=
@@ -776,7 +785,11 @@ Definition fv_num (v : fval) : option N :=
 Definition fv_name (v : fval) : option name :=
   match v with VNameLc n | VNameRaw n => Some n | _ => None end.
 Definition fv_octs (v : fval) : option bytes :=
-  match v with VStr s | VOcts s | VPfx s | VBitmap s | VOcts16 s => Some s | _ => None end.
+  match v with
+  | VStr s | VOcts s | VPfx s | VBitmap s | VOcts16 s => Some s
+  | VAddr4 w => Some (pad 4 w) | VAddr16 w => Some (pad 16 w)
+  | _ => None
+  end.
 Definition step_cmp (mode : N) (a b : fval) : option comparison :=
   if mode =? 1 then match fv_num a, fv_num b with Some x, Some y => Some (x ?= y) | _, _ => None end
   else if mode =? 2 then match fv_num a, fv_num b with Some x, Some y => u32_partial_gen true x y | _, _ => None end
@@ -823,6 +836,21 @@ Definition c04_rd_ccmp_steps (code : N) (a b : list fval) : option comparison :=
    Hash impls feed every field in order, after the type *)
 Definition c04_rdh (code : N) (a : list fval) : list tok := TW code :: flat_map fv_hash a.
 
+(* Record<Name, Data> with typed data: Eq / Ord / PartialOrd as chains over the
+   T1 field lists (owner=1 via Name's operators, class=2, data=4) *)
+Definition rec_eq_step (f : N) (oa ob : name) (ca cb : N) (deq : bool) : bool :=
+  if f =? 1 then name_eqb oa ob else if f =? 2 then ca =? cb else if f =? 4 then deq else true.
+Definition rec_cmp_step (f : N) (oa ob : name) (ca cb : N) (dcmp : option comparison) : option comparison :=
+  if f =? 1 then Some (name_cmp oa ob) else if f =? 2 then Some (ca ?= cb) else if f =? 4 then dcmp else None.
+Fixpoint rec_chain (fs : list N) (oa ob : name) (ca cb : N) (dcmp : option comparison) : option comparison :=
+  match fs with
+  | [] => Some Eq
+  | f :: fs' => match rec_cmp_step f oa ob ca cb dcmp with
+                | Some Eq => rec_chain fs' oa ob ca cb dcmp
+                | r => r
+                end
+  end.
+
 Definition rd_row := (list N * (list N * list N * list N * list N))%type.
 Fixpoint rd_lookup (t : list (N * rd_row)) (code : N) : option rd_row :=
   match t with
@@ -836,6 +864,7 @@ Definition row_canonical (r : rd_row) : list N := let '(_, (_, _, cc, _)) := r i
 Definition row_hash (r : rd_row) : list N := let '(_, (_, _, _, h)) := r in h.
 
 (* ------------------------------------------- entry points for the T2 driver *)
+Definition c04_parsed_record_eq := m_parsed_record_eq.
 Definition c04_header_cmp := m_header_cmp.
 Definition c04_uncertain_eq := m_uncertain_eq.
 Definition c04_uncertain_hash := m_uncertain_hash.
@@ -847,11 +876,20 @@ Definition c04_rd_kinds (code : N) : list N :=
   match rd_lookup rd_table code with Some r => row_kinds r | None => [] end.
 Definition c04_rd_eq (code : N) (a b : list fval) : option bool :=
   match rd_lookup rd_table code with Some r => Some (rd_eq (row_eq r) a b) | None => None end.
+(* IPSECKEY rows are per gateway variant under the pseudo codes 45000 + gateway type *)
+Definition rtype_of (code : N) : N := if (45000 <=? code) && (code <=? 45003) then 45 else code.
 Definition c04_rd_hash (code : N) (a : list fval) : list tok :=
-  match rd_lookup rd_table code with Some r => rd_hash code (row_hash r) a | None => [] end.
+  match rd_lookup rd_table code with Some r => rd_hash (rtype_of code) (row_hash r) a | None => [] end.
+Definition c04_record_eq (code : N) (oa : name) (ca : N) (a : list fval) (ob : name) (cb : N) (b : list fval) : bool :=
+  forallb (fun f => rec_eq_step f oa ob ca cb (match c04_rd_eq code a b with Some e => e | None => false end)) record_eq_fields.
+Definition c04_record_cmp (code : N) (oa : name) (ca : N) (a : list fval) (ob : name) (cb : N) (b : list fval) :=
+  rec_chain record_cmp_fields oa ob ca cb (c04_rd_cmp code a b).
+Definition c04_record_partial (code : N) (oa : name) (ca : N) (a : list fval) (ob : name) (cb : N) (b : list fval) :=
+  rec_chain record_partial_fields oa ob ca cb (c04_rd_partial code a b).
 Definition c04_rd_ccmp (code : N) (a b : list fval) : outcome comparison :=
   match rd_lookup rd_table code with Some r => rd_canonical_cmp (row_canonical r) a b | None => Err 0 end.
 Definition c04_lower (b : N) : N := lower b.
+Definition c04_std_lower (b : N) : N := std_to_ascii_lowercase b.
 Definition c04_label_eq := m_label_eq.
 Definition c04_label_cmp := m_label_cmp.
 Definition c04_label_hash := m_label_hash.
@@ -862,6 +900,9 @@ Definition c04_name_eq (a b : bytes) := m_name_eq (NFlat a) (NFlat b).
 Definition c04_name_eq_iter (a b : bytes) := iters_eq LOOP_FUEL (IFlat a) (IFlat b).
 Definition c04_name_cmp (a b : bytes) := m_name_cmp (NFlat a) (NFlat b).
 Definition c04_name_hash (a : bytes) := m_name_hash (NFlat a).
+(* Name::from_octets accepts exactly what Base/Names.decode_abs decodes without rest *)
+Definition c04_accepts (w : bytes) : bool :=
+  match decode_abs w with inl (Some (_, [])) => true | _ => false end.
 Definition c04_name_ord (a b : bytes) := m_name_ord (NFlat a) (NFlat b).
 Definition c04_relname_eq (a b : bytes) := m_relname_eq (NFlat a) (NFlat b).
 Definition c04_relname_ord (a b : bytes) := m_relname_ord (NFlat a) (NFlat b).
@@ -880,10 +921,10 @@ Definition c04_parsed_hash (m : bytes) (pos : N) :=
   do r <- c04_parsed m pos; m_name_hash r.
 (* the name parsed at pos, reduced k times by parent(), against a flat name:
    name_eq, name_cmp, composed_cmp, lowercase_composed_cmp, then the hash feed *)
-Definition c04_parsed_suffix (m : bytes) (pos : N) (k : nat) (b : bytes)
+Definition c04_parsed_suffix_gen (stepn : nat -> bytes -> pname -> outcome pname) (m : bytes) (pos : N) (k : nat) (b : bytes)
   : outcome (bool * comparison * comparison * comparison * bytes) :=
   do p <- parse_ref m pos (mlen m);
-  do q <- parent_n k m p;
+  do q <- stepn k m p;
   let r := NParsed m q in
   do e <- m_name_eq r (NFlat b);
   do c <- m_name_cmp r (NFlat b);
@@ -891,6 +932,8 @@ Definition c04_parsed_suffix (m : bytes) (pos : N) (k : nat) (b : bytes)
   do lc <- m_lc_composed_cmp r (NFlat b);
   do h <- m_name_hash r;
   Ok (e, c, cc, lc, h).
+Definition c04_parsed_suffix := c04_parsed_suffix_gen parent_n.
+Definition c04_parsed_suffix_split := c04_parsed_suffix_gen split_first_n.
 (* a chain of a relative and an absolute flat name against a flat name *)
 Definition c04_chain_eq (l r b : bytes) := m_name_eq (NChain (NFlat l) (NFlat r)) (NFlat b).
 Definition c04_chain_cmp (l r b : bytes) := m_name_cmp (NChain (NFlat l) (NFlat r)) (NFlat b).
@@ -908,3 +951,12 @@ Definition c04_ipseckey_ccmp := m_ipseckey_name_canonical_cmp.
 Definition c04_ipseckey_none_hash := m_ipseckey_gateway_hash None.
 Definition c04_all_unknown_eq := m_all_unknown_eq.
 Definition c04_all_opt_eq := m_all_opt_eq.
+(* Hash of RecordHeader<Name> and of Record<Name, Data> as Hasher calls, over
+   the T1 field lists: owner label by label, rtype / class / rdlen u16, ttl u32 *)
+Definition hdr_toks (f : N) (h : hdr) : list tok :=
+  if f =? 1 then map TB (name_hash_feed (h_owner h))
+  else if f =? 3 then [TD (h_ttl h)] else [TW (hdr_num f h)].
+Definition c04_header_hash (h : hdr) : list tok := flat_map (fun f => hdr_toks f h) header_hash_fields.
+Definition c04_record_hash (code : N) (owner : name) (class : N) (a : list fval) : list tok :=
+  flat_map (fun f => if f =? 1 then map TB (name_hash_feed owner) else if f =? 2 then [TW class]
+                     else if f =? 4 then c04_rd_hash code a else [TN 0]) record_hash_fields.
